@@ -321,3 +321,89 @@ func tableStepNonNegative(p *Prog) (bool, string) {
 	}
 	return ok, why
 }
+
+// algoRMWProblems: every load of the estimate that feeds a stored estimate is made in the critical section that stores
+// the result - the type's exclusive mutex is held at the store, and on no path from the load to the store is that mutex
+// released or re-acquired. (An update computed from a snapshot taken before the lock was (re)taken applies the rule to a
+// stale estimate: two overlapping drops back off once, a delayed writer raises the estimate again.)
+func algoRMWProblems(p *Prog, locks *LockInfo, af *algoFn) (int, []string) {
+	var bad []string
+	n := 0
+	recv := af.Fn.Params[0]
+	var keys []string
+	for _, m := range mutexFields(af.A.T) {
+		keys = append(keys, AccessPath(recv).String()+"."+m)
+	}
+	for _, s := range af.Stores {
+		// loads of the estimate feeding the stored value
+		var loads []ssa.Instruction
+		seen := map[ssa.Value]bool{}
+		var walk func(v ssa.Value, d int)
+		walk = func(v ssa.Value, d int) {
+			if v == nil || seen[v] || d > 60 || len(seen) > 800 {
+				return
+			}
+			seen[v] = true
+			if fr, _, ok := loadedField(v); ok && sameField(fr, af.A.Est) {
+				if ins, isIns := v.(ssa.Instruction); isIns && ins.Parent() == af.Fn {
+					loads = append(loads, ins)
+				}
+				return
+			}
+			if ins, ok := v.(ssa.Instruction); ok && ins.Parent() == af.Fn {
+				for _, op := range ins.Operands(nil) {
+					if op != nil && *op != nil {
+						walk(*op, d+1)
+					}
+				}
+			}
+		}
+		walk(s.Val, 0)
+		n++
+		held := locks.Held(s.Instr)
+		okLock := false
+		lockKey := ""
+		for _, k := range keys {
+			if ex, ok := held[k]; ok && ex {
+				okLock, lockKey = true, k
+			}
+		}
+		if !okLock {
+			bad = append(bad, fmt.Sprintf("%s: the estimate is stored without the algorithm's exclusive mutex", p.At(s.Instr)))
+			continue
+		}
+		for _, ld := range loads {
+			broke := ""
+			EnumPaths(af.Fn, 100000, func(pa *Path) bool {
+				if !pa.Contains(ld) || !pa.Contains(s.Instr) {
+					return true
+				}
+				between := false
+				pa.Each(func(step int, ins ssa.Instruction) bool {
+					if ins == ld {
+						between = true
+						return true
+					}
+					if ins == s.Instr {
+						return false
+					}
+					if !between {
+						return true
+					}
+					if call, ok := ins.(*ssa.Call); ok {
+						if op, key := p.lockOpOf(p.CallOf(call)); op != opNone && key == lockKey {
+							broke = fmt.Sprintf("%s: the estimate read at %s feeds the value stored at %s, but %s is released / re-acquired in between (%s): the update is computed from a stale estimate when samples overlap", p.At(ins), p.At(ld), p.At(s.Instr), lockKey, p.CallOf(call).Name)
+							return false
+						}
+					}
+					return true
+				})
+				return broke == ""
+			})
+			if broke != "" {
+				bad = append(bad, broke)
+			}
+		}
+	}
+	return n, bad
+}
